@@ -175,6 +175,15 @@ void w_call(void)
     __CPROVER_assert(e == vp_ev_n, "[C02,C08] POST call.accepted.no_other_clause_evaluated");
     __CPROVER_assert((vp_exc != 0) == threw, "[C01,C08] POST call.accepted.throws_iff_a_clause_threw");
     if (threw) __CPROVER_assert(vp_exc == VP_EXC_USER_STD || vp_exc == VP_EXC_USER_OTHER, "[C08] POST call.accepted.caller_receives_that_exception");
+    if (threw) {   /* C08: "a call that throws - from THROW or from a side effect - still counts as handled": counted, saturated, and its sequences moved on */
+      _Bool handled = hb[c]->call_count == in_cnt[c] + 1 && in_ring_cm(SENT_SAT, c) == sat;
+      for (int k = 0; k < 2; k++) if (k < in_K[c]) {
+        int s = seq_of(c, k);
+        if (sat && handle_linked(c, k)) handled = 0;
+        for (int j = c + 1; j < N; j++) for (int kk = 0; kk < 2; kk++) if (kk < in_K[j] && seq_of(j, kk) == s && handle_linked(j, kk)) handled = 0;
+      }
+      __CPROVER_assert(handled, "[C08] POST call.accepted.a_call_that_throws_still_counts_as_handled_and_its_sequences_move_on");
+    }
     /* C16: exactly one OK report naming the handler */
     __CPROVER_assert(vp_ok_n == 1, "[C16] POST call.accepted.exactly_one_ok_report");
     __CPROVER_assert(vp_ok_n < 1 || vp_ok[0].msg == nm_name[c], "[C16] POST call.accepted.ok_report_names_the_handler");
@@ -407,6 +416,8 @@ void w_nomatch_text(void)
   __CPROVER_assert(func_named, "[C15] POST nomatch.names_the_function");
   __CPROVER_assert(n_int == 2 && ints[0] == 1 && ints[1] == (long)x, "[C15] POST nomatch.prints_every_actual_argument");
   for (int i = 0; i < N; i++) if (!sat_match && in_where[i] == 0) __CPROVER_assert(cm[i]->reported, "[C04,C15] POST nomatch.listed_expectations_are_marked_reported");
+  /* ... and only those: an expectation the report does not name keeps its flag, else its shortfall would never be reported (C04) */
+  for (int i = 0; i < N; i++) if (sat_match ? in_where[i] != 1 : in_where[i] != 0) __CPROVER_assert(cm[i]->reported == in_reported[i], "[C04] POST nomatch.an_expectation_the_report_does_not_name_is_not_marked_as_reported");
   /* C08: the WITH clauses of an expectation stop at the first that fails - also while the report is being put together */
   __CPROVER_assert(vp_ev_n <= VP_EV_CAP, "[C08] MODEL event log capacity sufficient");
   for (int i = 0; i < N; i++) {
